@@ -210,7 +210,8 @@ def run_h2d(osy, case, threads=1, capture=None):
     Y = osy.Array(values=y, unit=uy, name="yq")
     layers = []
     for i, op in enumerate(case.get("ops", [])):
-        arr = osy.Array(values=v[i].copy(), unit="", name=f"layer{i}")
+        vdt = {"f8": np.float64, "f4": np.float32, "i8": np.int64, "i4": np.int32, "i2": np.int16}[case.get("vdtype", "f8")]
+        arr = osy.Array(values=v[i].astype(vdt), unit="", name=f"layer{i}")
         layers.append(arr if op is None else osy.core.Layer(arr, operation=op))
     kw = {"resolution": case["res"], "plot": False, "logx": bool(case.get("logx")), "logy": bool(case.get("logy"))}
     if case.get("res_xy"):
@@ -441,7 +442,12 @@ def gen_h2d(r, npts, lane):
         ylo, yhi, ys = gen_axis_exact(r, ry, npts, style if style in ("mixed", "onebin") else "in")
         if r.random() < 0.5 and not res_pair:
             xs, ys, xlo, xhi, ylo, yhi = ys, xs, ylo, yhi, xlo, xhi
-        return {"level": "h2d", "lane": "exact", "den": 2 ** e, "res": res, "res_xy": res_pair, "xs": xs, "ys": ys, "vden": 16,
+        # dtype of the stored layer values (all layers of a call share it, otherwise numpy upcasts the stack): integer
+        # variables (level, cpu, flags) and single-precision outputs are ordinary histogram inputs
+        vdtype = r.choice(["f8", "f8", "f8", "f4", "i8", "i4", "i2"])
+        integer = vdtype in ("i8", "i4", "i2")
+        return {"level": "h2d", "lane": "exact", "den": 2 ** e, "res": res, "res_xy": res_pair, "xs": xs, "ys": ys,
+                "vden": 1 if integer else 16, "vdtype": vdtype,
                 "values": [[r.randint(-64, 640) for _ in range(npts)] for _ in range(nl)], "ops": ops, "operation": operation,
                 "lim": {"xmin": xlo, "xmax": xhi, "ymin": ylo, "ymax": yhi}, "units": units,
                 "quantity_limits": r.random() < 0.15, "tags": ["h2d", "exact", "explicit", style]}
